@@ -98,6 +98,44 @@ def fam2_chunk(chunk):
     return out
 
 
+# wildcards and nibble masks inside a literal run: a quality table that rates the plain windows as common moves the indexed atom onto the masked byte; the
+# string must still be found for EVERY byte value the mask admits (the masked atom is expanded into plain atoms for the automaton)
+WPOOL = ["61 62 63 64 65 ?? 67 68", "61 62 63 64 65 ?7 67 68", "61 62 63 64 65 6? 67 68", "61 62 63 64 ?? ?3 67 68 69", "?? 62 63 64 65 66", "61 62 63 64 65 F?", "61 62 ?F 64 65 66 67",
+         "61 62 63 64 65 ?? ?? 68 69 6A 6B"]
+
+
+def wparse(decl):
+    out = []
+    for t in decl.split():
+        hi, lo = t[0], t[1]
+        out.append(((0 if hi == "?" else int(hi, 16) << 4) | (0 if lo == "?" else int(lo, 16)), (0 if hi == "?" else 0xf0) | (0 if lo == "?" else 0x0f)))
+    return out
+
+
+def famw_chunk(chunk):
+    w = yv.get_worker("plain")
+    out = []
+    for (decl, table) in chunk:
+        toks = wparse(decl)
+        lit = bytes(v for v, m in toks)
+        wins = sorted(set(lit[i:i + 4] for i in range(len(lit) - 3) if all(m == 0xff for _, m in toks[i:i + 4])))
+        buf, want = b"", []
+        for v in range(256):
+            var = bytes(val if m == 0xff else v for val, m in toks)
+            if all((b & m) == val for b, (val, m) in zip(var, toks)): want.append([len(buf), len(var)])
+            buf += var + b"...."
+        extra = [] if table == "default" else ["atomq 0 %s 0" % b"".join(x + b"\0" for x in wins if x != table).hex()]
+        for flags in (0, 8):
+            cmds = ["reset", "compiler 0"] + extra + ["add 0 - " + yv.hx("rule r { strings: $a = { %s } condition: #a >= 0 }" % decl), "getrules 0 0", "cdestroy 0", "scanner 0 0"]
+            rep = w.batch(cmds + ["scan target=s0 via=mem flags=%d data=%s" % (flags, yv.hx(buf))])
+            add = [r for r in rep if "errors" in r][0]
+            if add["errors"]:
+                out.append((decl, table, flags, "cerr", add["msgs"][:2], None)); continue
+            got = [[x[0], x[1]] for m in rep[-1]["t"] if m[0] in ("m", "n") for sid in m[2] for x in sid[1]]
+            out.append((decl, table, flags, "ok", got, want))
+    return out
+
+
 # ------------------------------------------------------------------ family 4: constant <-> expression <-> external
 def templates():
     K = lambda e: e
@@ -225,6 +263,27 @@ def main():
             kind = "text" if decl.startswith('"') else "hex" if decl.startswith("{") else "regex"
             ck.violation("C12:atom-table:%s" % kind, dict(string=decl, best_window=win if isinstance(win, str) else win.decode(), default=ref[decl], with_table=(st, obs), buffers=[b.hex() for b in ABUFS]))
     ck.sub("atom-position", strings=len(POOL), tables=n2)
+    wjobs = []
+    for decl in WPOOL:
+        toks = wparse(decl); lit = bytes(v for v, m in toks)
+        wins = sorted(set(lit[i:i + 4] for i in range(len(lit) - 3) if all(m == 0xff for _, m in toks[i:i + 4])))
+        wjobs += [(decl, "default"), (decl, "allzero")] + [(decl, x) for x in wins]
+    nw = 0
+    for res in yv.pmap(famw_chunk, yv.chunked(wjobs, 2), ck):
+        for (decl, table, flags, st, got, want) in res:
+            nw += 1; ck.cov["evaluations"] += 256
+            if st != "ok":
+                ck.violation("C12:atom-table:masked-hex:rejected", dict(string=decl, table=str(table), messages=got)); continue
+            if flags == 8:
+                got = sorted(set(tuple(x) for x in got)); want_ = sorted(set(tuple(x) for x in want))
+                ok = set(got) <= set(want_) and (bool(got) == bool(want_))        # fast mode may stop at the first occurrence
+            else:
+                ok = sorted(got) == sorted(want)
+            if not ok:
+                missing = [x for x in want if x not in got][:4]
+                ck.violation("C12:atom-table:masked-hex:%s" % ("default-table" if table == "default" else "table-moves-the-atom"),
+                             dict(string="{ %s }" % decl, plain_windows_rated_common=str(table), fast_mode=bool(flags), missing_byte_values=["%02x" % (o[0] // (o[1] + 4)) for o in missing], extra=[x for x in got if x not in want][:4]))
+    ck.sub("atom-position:masked-hex", strings=len(WPOOL), compilations=nw, note="every byte value 0..255 in the masked positions; expected occurrences from the mask itself")
     # ---------------- family 4
     chunks = []
     for (tname, ks, mk, ids) in templates():
